@@ -479,3 +479,64 @@ class EntropyHelpers(E2Contract):
                 eq("vector", out["v"], terms, "relative_entropy_vector entries == q log(q/p)"),
                 eq("gradient-scalar", out["gs"], gsum, "gradient_relative_entropy_2nd == sum_x -q_x grad p_x / p_x"),
                 eq("gradient-vector", np.sum(out["gv"], axis=0), gsum, "the vector variant sums to the scalar variant")]
+
+
+class RoundVarz(E2Contract):
+    """math.entropy.round_varz / round_varz_vector: max(z, eps) entry-wise - below the threshold the result is eps itself (not some other small
+    number), above it the entry; the scalar and the vector variant agree.  Regimes fixed by requires (entries at least 1e-9 away from eps)."""
+    name = "math.entropy.round_varz"
+    prop = "C12"
+    targets = ("quara.math.entropy:round_varz", "quara.math.entropy:round_varz_vector")
+    max_paths = 32
+    n_conformance = 2
+
+    def configs(self, tier):
+        return ["below", "above", "mixed", "negative"]
+
+    def inputs(self, W, cfg, mk):
+        z = mk.array("z", 3)
+        eps = mk.real("eps")
+        mk.require(eps >= 1e-12)
+        mk.require(eps <= 1e-3)
+        for k in range(3):
+            below = cfg in ("below", "negative") or (cfg == "mixed" and k == 0)
+            if cfg == "negative":
+                mk.require(z[k] <= -1e-6)
+            elif below:
+                mk.require(z[k] >= 0)
+                mk.require(z[k] <= eps - 1e-13)
+            else:
+                mk.require(z[k] >= eps + 1e-13)
+            mk.require(z[k] <= 2)
+            mk.require(z[k] >= -2)
+        return dict(z=z, eps=eps)
+
+    def sample(self, cfg, names, rng):
+        eps = 10 ** rng.uniform(-12, -3)
+        vals = {"eps": eps}
+        for k in range(3):
+            below = cfg in ("below", "negative") or (cfg == "mixed" and k == 0)
+            if cfg == "negative":
+                vals[f"z_{k}"] = -10 ** rng.uniform(-6, 0)
+            elif below:
+                vals[f"z_{k}"] = eps * rng.uniform(0, 0.9)
+            else:
+                vals[f"z_{k}"] = eps + 10 ** rng.uniform(-12, 0)
+        return vals
+
+    def run(self, W, cfg, inp):
+        e = W.mod("quara.math.entropy")
+        valid = cfg != "negative"
+        return dict(vec=e.round_varz_vector(inp["z"], inp["eps"], is_valid_required=valid),
+                    scalar=[e.round_varz(inp["z"][k], inp["eps"], is_valid_required=valid) for k in range(3)])
+
+    def post(self, W, cfg, inp, out):
+        want = []
+        for k in range(3):
+            below = cfg in ("below", "negative") or (cfg == "mixed" and k == 0)
+            want.append(inp["eps"] if below else inp["z"][k])
+        return [eq("vector==max(z,eps)", out["vec"], want, "round_varz_vector(z, eps)[k] == max(z[k], eps)"),
+                eq("scalar==max(z,eps)", out["scalar"], want, "round_varz(z[k], eps) == max(z[k], eps)")]
+
+    def canary(self, W, cfg, inp, out):
+        return [eq("canary", out["vec"], [2 * inp["eps"] + 1] * 3, "(false)")]
